@@ -134,7 +134,16 @@ def translate_except_rule(server):
             return "oneway"
         if isinstance(e, ast.Name) and e.id == "isCallback":
             return "isCallback"
+        if isinstance(e, ast.Name) and e.id in local_defs:
+            return cond(local_defs[e.id])             # a local that merely names a condition (assigned once in the handler)
         raise ValueError("except-rule: unrecognised condition " + ast.unparse(e))
+
+    assigned = {}
+    for n in ast.walk(handler[0]):
+        if isinstance(n, ast.Assign) and len(n.targets) == 1 and isinstance(n.targets[0], ast.Name):
+            assigned.setdefault(n.targets[0].id, []).append(n.value)
+    local_defs = {k: v[0] for k, v in assigned.items() if len(v) == 1 and isinstance(v[0], (ast.BoolOp, ast.UnaryOp, ast.Call, ast.BinOp, ast.Compare))
+                  and k not in ("isCallback",)}
 
     sends, raises = [], []
 
